@@ -53,6 +53,7 @@ Definition all3 (_ _ _ : Z) : bool := true.
 Definition nof (_ _ _ : Z) (_ : bool) : bool := false.
 Definition sg (x : Z) : Z := signed B32 x.
 Definition sg64 (x : Z) : Z := signed B64 x.
+Definition sext16 (x : Z) : Z := let y := x mod 65536 in if y <? 32768 then y else y - 65536.
 Definition sext24 (x : Z) : Z := let y := x mod 16777216 in if y <? 8388608 then y else y - 16777216.
 
 (** two 32-bit sources, 32-bit VGPR destination, no masks *)
@@ -94,6 +95,8 @@ Definition ffbh32 (x : Z) : Z := if x =? 0 then -1 else 31 - Z.log2 x.
 (** integer compares, opcode numbers shared by VOPC and VOP3a *)
 Definition cmp_row (out : mask_dst) (op : Z) : option vrow :=
   match op with
+  | 164 => Some (mkVR 2 B32 B32 B32 None SNone out (fun _ _ _ _ => 0)
+                   (fun a b _ _ => sext16 a >? sext16 b) all3)                       (* V_CMP_GT_I16 *)
   | 193 => Some (compare B32 out true Z.ltb) | 194 => Some (compare B32 out true Z.eqb)
   | 195 => Some (compare B32 out true Z.leb) | 196 => Some (compare B32 out true Z.gtb)
   | 197 => Some (compare B32 out true (fun x y => negb (x =? y)))
@@ -128,6 +131,8 @@ Definition vop2_row (a : arch) (op : Z) : option vrow :=
   | 28 => Some (arith SVcc DVcc 2 add_f add_c)                          (* V_ADDC_U32 *)
   | 29 => Some (arith SVcc DVcc 2 sub_f sub_c)                          (* V_SUBB_U32 *)
   | 30 => Some (arith SVcc DVcc 2 subrev_f subrev_c)                    (* V_SUBBREV_U32 *)
+  | 38 => match a with CDNA3 => Some (op2 (fun x y => (x mod 65536 + y mod 65536) mod 65536)) | GCN3 => None end  (* gfx9 V_ADD_U16: high half zero *)
+  | 42 => match a with CDNA3 => Some (op2 (fun x y => ((y mod 65536) * 2 ^ (x mod 16)) mod 65536)) | GCN3 => None end
   | 52 => match a with CDNA3 => Some (op2 Z.add) | GCN3 => None end     (* gfx9 V_ADD_U32: no carry-out *)
   | 53 => match a with CDNA3 => Some (op2 Z.sub) | GCN3 => None end
   | 54 => match a with CDNA3 => Some (op2 (fun x y => y - x)) | GCN3 => None end
@@ -231,8 +236,8 @@ Definition sp_vgpr (r : vrow) (w : width) (st : state) (i : inst) : Z -> Z -> Z 
      else vgpr st l x)
   else vgpr st l x.
 
-Definition exec_spec_vgen (a : arch) (st : state) (i : inst) : option state :=
-  obind (vrow_of a (i_fmt i) (i_op i)) (fun r =>
+(** the effect of one row *)
+Definition run_r (r : vrow) (st : state) (i : inst) : option state :=
   if negb (forallb (fun l => negb (active st l) || sp_ok r st i l) (map Z.of_nat (seq 0 64))) then None
   else
   let m := mask_of (fun l => active st l && sp_flag r st i l) in
@@ -250,7 +255,10 @@ Definition exec_spec_vgen (a : arch) (st : state) (i : inst) : option state :=
   | DVcc => Some (st1 <| vcc := m |>)
   | DDst => dst64 st1 (i_dst i) m
   | DSdst => dst64 st1 (i_simm i) m
-  end)).
+  end).
+
+Definition exec_spec_vgen (a : arch) (st : state) (i : inst) : option state :=
+  obind (vrow_of a (i_fmt i) (i_op i)) (fun r => run_r r st i).
 
 Definition exec_spec_v (a : arch) (st : state) (i : inst) : option state :=
   match i_fmt i, i_op i with
